@@ -246,6 +246,19 @@ register('C06',
          'Coq proof (state equality + determinism of the step function) + fault enumeration at statement boundaries + vm_compute replay',
          'DESIGN.md §7 C06')
 
+register('C09',
+         'Coq theorems over Layer M (the manager\'s units_of_work and session_connection_map with unit_of_work(), clear(), '
+         'clear_connection() and their sweeps): locality - a step of another independent session changes nothing this session can see; '
+         'non-interference for ANY number of sessions and ANY interleaving - what a session sees after the whole schedule equals what it '
+         'sees after its own steps alone; quiescence - after its rollback (and after its commit, once registered) a session has neither a '
+         'unit of work nor a map entry. Tie to the code: 2 and 3 session programs are interleaved step by step, each session on its own '
+         'SQLite database/engine/connection but sharing the one manager, mappers and version classes; after every event the two maps are '
+         'read and compared with the model, at the end each database is compared with the solo run of its program (exact equality).',
+         COMMON_NOTE + 'Steps are atomic session calls in one thread. Connection-bound sessions; DB-API connection identity and the closed flag '
+         'are environment functions of the model.',
+         'Coq proof (frame lemma per step + induction over the interleaving) + executed interleavings compared with solo runs',
+         'DESIGN.md §7 C09')
+
 ALL = ['C%02d' % i for i in range(1, 21)]
 
 
